@@ -40,7 +40,8 @@ def cases(tier, seed):
             out.append({"name": "poll.multi-raise/worker/%s|%s" % (trig, second), "kind": "sweep", "victim": "worker", "trigger": trig,
                         "second": second, "cap": None, "raise_at": [1, 2, 3], "multi": True})
     # suspension points at instruction boundaries: a client's cancel() scanning the registrations | the poll thread
-    for vict, second in (("cancel2", "notify"), ("cancel1", "notify"), ("cancel2", "timer"), ("cancel0", "notify"), ("cancel2", "complete")):
+    for vict, second in (("cancel2", "notify"), ("cancel1", "notify"), ("cancel2", "timer"), ("cancel0", "notify"), ("cancel2", "complete"),
+                         ("cancel3", "complete3"), ("cancel3", "notify")):
         out.append({"name": "poll.multi-instr/client/%s|%s" % (vict, second), "kind": "sweep", "victim": "client", "trigger": vict,
                     "second": second, "cap": None, "multi": True, "gran": "instr"})
     for trig, second in (("notify", "cancel2"), ("notify", "cancel1"), ("timer", "cancel2"), ("complete", "cancel2")):
@@ -481,12 +482,15 @@ class PScenario(object):
                         continue
                     w.complete(rec["i"])
                     break
+        elif what == "complete3":
+            w.complete(3)
         elif what == "fail":
             for rec in reversed(w.futs):
                 if rec["delegate"] is None:
                     w.complete(rec["i"], "fail")
                     break
-        elif what in ("cancel0", "cancel1", "cancel2"):
+        elif what in ("cancel0", "cancel1", "cancel2", "cancel3"):
+            # (3: its delegate is still pending - the cancel overlaps the hand-over to the polling stage)
             w.cancel(int(what[-1]))
         elif what == "cancel":
             w.cancel(0)
